@@ -16,6 +16,7 @@ def run(rep):
     enginep.engine_deductive(rep, ['engine.YP.query'], heap_lemmas=False)
     # a source goal never becomes the compiler's internal $CUTIF marker, whose argument is pasted as a label (visitTermpredicate)
     control.parse_deductive(rep, control.PARSE_BODY + control.PARSE_CLAUSE)
+    control.text_deductive(rep)
     q = rep.tier == 'quick'
     fw.standin(rep, 's_c12.py', ['run', rep.seed, 250 if q else 4000],
                'hostile atoms in every syntactic position: AST whitelist of the output, names, call targets, string constants; hostile run-time queries',
